@@ -4,6 +4,7 @@ copy, enumerates coupled list relations, generates seeded API operations, and ta
 
 from __future__ import annotations
 
+import collections
 import hashlib
 import io
 import logging
@@ -145,13 +146,59 @@ def raw_scan(loader) -> dict[str, list[dict]]:
     return out
 
 
+class PrivateState(t.NamedTuple):
+    idcache: dict
+    xtypecache: dict
+    hrefsources: dict
+    ignore_uuid_dups: bool
+
+
+_PRIV_NAMES: dict = {}   # role -> attribute name found on ModelFile instances (resolved once per process, re-validated per call)
+
+
+def private_state(tree) -> PrivateState:
+    """The three private dictionaries of a `ModelFile` and its duplicate-tolerance flag.
+
+    The name-mangled names as of the pinned commit are tried first; when the code was refactored (a private attribute
+    renamed) the dictionaries are recognised by their SHAPE, so that a harmless rename does not break the tie:
+    the type index is the dict whose values are dicts (element-id -> element); of the two str -> element dicts the href
+    index is the one whose elements carry an `href` ending in their key, the id index the other one. Raises
+    `common.BindingBroken` when the layout cannot be recognised (check.py turns that into a broken-correspondence
+    verdict, never a crash)."""
+    known = {"idcache": "_ModelFile__idcache", "xtypecache": "_ModelFile__xtypecache",
+             "hrefsources": "_ModelFile__hrefsources", "ignore_uuid_dups": "_ModelFile__ignore_uuid_dups"}
+    d = vars(tree)
+    if all(n in d for n in known.values()):
+        return PrivateState(*(d[known[r]] for r in PrivateState._fields))
+    names = dict(_PRIV_NAMES)
+    if not all(names.get(r) in d for r in PrivateState._fields):
+        dicts = {k: v for k, v in d.items() if isinstance(v, dict)}
+        xt = [k for k, v in dicts.items() if isinstance(v, collections.defaultdict) or (v and all(isinstance(x, dict) for x in v.values()))]
+        flat = [k for k in dicts if k not in xt]
+
+        def looks_href(v):
+            items = [(k, e) for k, e in v.items() if e is not None][:20]
+            return bool(items) and all(hasattr(e, "get") and str(e.get("href") or "").endswith(str(k)) for k, e in items)
+
+        hr = [k for k in flat if looks_href(dicts[k])]
+        if len(hr) != 1:   # no placeholder in this file: fall back to the name
+            hr = [k for k in flat if "href" in k.lower()]
+        ic = [k for k in flat if k not in hr]
+        flags = [k for k, v in d.items() if isinstance(v, bool) and "dup" in k.lower()] or [k for k, v in d.items() if isinstance(v, bool)]
+        if len(xt) != 1 or len(hr) != 1 or len(ic) != 1 or len(flags) < 1:
+            raise common.BindingBroken(
+                "private state of ModelFile not recognised (id index / type index / href index / duplicate flag): "
+                f"dict attributes {sorted(dicts)}, bool attributes {sorted(k for k, v in d.items() if isinstance(v, bool))}")
+        names = {"idcache": ic[0], "xtypecache": xt[0], "hrefsources": hr[0], "ignore_uuid_dups": flags[0]}
+        _PRIV_NAMES.update(names)
+    return PrivateState(*(d[names[r]] for r in PrivateState._fields))
+
+
 def index_dump(loader) -> dict[str, dict]:
     """private indexes of every fragment, canonicalised (python ids of elements)"""
     out = {}
     for fname, tree in loader.trees.items():
-        idc = tree._ModelFile__idcache
-        xtc = tree._ModelFile__xtypecache
-        hrefs = tree._ModelFile__hrefsources
+        idc, xtc, hrefs, _ = private_state(tree)
         sem = frag_idattrs(fname) == ("id",)
         xt_clean = {xt: sorted(k for k, el in d.items() if not (sem and el.get("href") is not None)) for xt, d in xtc.items()}
         out[str(fname)] = {
